@@ -425,7 +425,7 @@ fn random_sep(r: &mut Rng, allow_empty: bool, ls: &mut LayoutStats) -> String {
         }
         6 => {
             ls.comments += 1;
-            let body = *r.pick(&["", " commentaar", " x = 1; \"niet\" { [ (", "//", " é💖", " stel als anders", " tel er één dozijn bij op", "💖💖💖"]);
+            let body = *r.pick(&["", " commentaar", " x = 1; \"niet\" { [ (", "//", " é💖", " stel als anders", " tel er één dozijn bij op", "💖💖💖", " pad C:\\", "\\"]);
             format!(" //{}\n", body)
         }
         7 => "\t".to_string(),
